@@ -210,7 +210,7 @@ def plan(prop, tier, seed, budget):
         P = dict(
             level='exploration',
             builds=[('tree', 'asan')] + ([] if q else [('tree', 'rel'), ('tree', 'fuzz')]),
-            jobs=[g1_jobs('tree', sc, 200000 if q else 3000000), g2_jobs('tree', 50000 if q else 200000)] +
+            jobs=[g1_jobs('tree', sc, 200000 if q else 3000000), g2_jobs('tree', 30000 if q else 200000)] +
                  ([] if q else [g2_jobs('tree', 15000, variant='rel'), g3_jobs('tree', 300000)]),
             py=[] if q else [g3_stats('tree')],
             rule='case = byte-coded insert / hinted insert / erase history on a cstl_rbtree (heavy key duplication); oracle = '
@@ -338,7 +338,7 @@ def plan(prop, tier, seed, budget):
             level='exploration',
             builds=[('vector', 'asan')] + ([] if q else [('vector', 'rel'), ('vector', 'fuzz')]),
             jobs=[custom_jobs('vector', 'argtable', ['argtable-all', '1', '{out}']),
-                  custom_jobs('vector', 'huge', ['huge', str(seed), '{out}', 'h']), g2_jobs('vector', 60000 if q else 350000)] +
+                  custom_jobs('vector', 'huge', ['huge', str(seed), '{out}', 'h']), g2_jobs('vector', 40000 if q else 350000)] +
                  ([] if q else [g1_jobs('vector', ['argtable:%d:%d:1:2:1' % (e, b) for e in range(9) for b in range(3)], 3000000),
                                 g2_jobs('vector', 50000, variant='rel'), g3_jobs('vector', 300000)]),
             py=[] if q else [g3_stats('vector')],
@@ -363,7 +363,7 @@ def plan(prop, tier, seed, budget):
             level='exploration',
             builds=[('string', 'asan')] + ([] if q else [('string', 'rel'), ('string', 'fuzz')]),
             jobs=[g1_jobs('string', d1 + d2q if q else d1 + d2 + d3, 200000 if q else 3000000),
-                  g2_jobs('string', 150000 if q else 1000000)] +
+                  g2_jobs('string', 90000 if q else 1000000)] +
                  ([] if q else [g2_jobs('string', 100000, variant='rel'), g3_jobs('string', 300000)]),
             py=[] if q else [g3_stats('string')],
             rule='case = byte-coded edit history over 2-3 narrow or wide cstl string objects (alphabet a,b,c,NUL,0x7f/0x1F600): set_str, '
@@ -380,7 +380,7 @@ def plan(prop, tier, seed, budget):
         P = dict(
             level='exploration',
             builds=[('sort', 'asan')] + ([] if q else [('sort', 'rel'), ('sort', 'fuzz')]),
-            jobs=[g1_jobs('sort', sort_scopes(not q), 200000 if q else 3000000), g2_jobs('sort', 75000 if q else 600000)] +
+            jobs=[g1_jobs('sort', sort_scopes(not q), 200000 if q else 3000000), g2_jobs('sort', 55000 if q else 600000)] +
                  ([] if q else [g1_jobs('sort', sort_scopes(False), 200000, variant='rel'), g2_jobs('sort', 100000, variant='rel'),
                                 g3_jobs('sort', 60000)]),
             py=[] if q else [g3_stats('sort')],
@@ -396,7 +396,7 @@ def plan(prop, tier, seed, budget):
         P = dict(
             level='exploration',
             builds=[('array', 'asan')] + ([] if q else [('array', 'rel'), ('array', 'fuzz')]),
-            jobs=[g1_jobs('array', ['seq3:%d:16' % k for k in range(16)], 3000000), g2_jobs('array', 200000 if q else 600000)] +
+            jobs=[g1_jobs('array', ['seq3:%d:16' % k for k in range(16)], 3000000), g2_jobs('array', 140000 if q else 600000)] +
                  ([] if q else [g1_jobs('array', ['cseq4:%d:16' % k for k in range(16)], 3000000),
                                 g2_jobs('array', 50000, variant='rel'), g3_jobs('array', 400000)]),
             py=[] if q else [g3_stats('array')],
